@@ -162,7 +162,7 @@ package resource_share
 //@   props C09 C08
 //@   requires qrs != nil && cacheOK(qrs)
 //@   requires resource == "CPU" || resource == "Memory" || resource == "GPU"
-//@   modifies qrs.lastDeservedShare, fields(qrs.ResourceShare(resource))
+//@   modifies qrs.lastDeservedShare, qrs.ResourceShare(resource).Deserved, qrs.ResourceShare(resource).MaxAllowed, qrs.ResourceShare(resource).OverQuotaWeight
 //@   ensures cacheOK(qrs)
 //@   ensures qrs.ResourceShare(resource).Deserved == deserved && qrs.ResourceShare(resource).MaxAllowed == maxAllowed && qrs.ResourceShare(resource).OverQuotaWeight == overQuotaWeight
 //@ end
